@@ -319,7 +319,7 @@ def shards(tier):
     out = [("hist", init, i) for init in range(len(PARSED) + 1) for i in range(len(ALLOPS))]
     out += [("eq", i) for i in range(len(EQ_DOCS))]
     out += [("bigeq", n) for n in (bigdocs.SIZES_QUICK if tier == "quick" else bigdocs.SIZES_THOROUGH)]
-    out += [("isolation", 0), ("oddkeys", 0), ("eqvalues", 0), ("wide", 0)]
+    out += [("isolation", 0), ("oddkeys", 0), ("eqvalues", 0), ("wide", 0), ("fieldobjects", 0)]
     return out
 
 
@@ -356,6 +356,8 @@ def run_shard(shard, tier, acc):
         equal_values(acc)
     elif shard[0] == "wide":
         wide_entries(acc, tier)
+    elif shard[0] == "fieldobjects":
+        field_objects(acc)
     else:
         equality_shard(shard[1], acc)
 
@@ -454,6 +456,56 @@ def wide_entries(acc, tier):
                             size=n,
                         )
                         break
+
+
+class UserField(Field):
+    """A user's subclass of Field."""
+
+
+def field_objects(acc):
+    """(a) A Field and an instance of a Field subclass with the same content are different classes: == is False and !=
+    is True, both ways (and != is the negation of == for every pair).  (b) A Field object assigned as a VALUE (e[k] = f)
+    is a value like any other: the mapping hands that very object back, under the same key or another."""
+    pairs = [
+        (Field("k", "v", 3), UserField("k", "v", 3), False),
+        (UserField("k", "v", 3), UserField("k", "v", 3), True),
+        (Field("k", "v", 3), Field("k", "v", 3), True),
+        (Field("k", "v", 3), Field("k", "v", 4), False),
+        (Field("k", "v", 3), "k", False),
+        (Field("k", "v", 3), None, False),
+    ]
+    for a, b, same in pairs:
+        for x, y in ((a, b), (b, a)):
+            acc.trace()
+            acc.case(nontrivial_key=("field-eq", repr(type(x).__name__), repr(type(y).__name__), same))
+            try:
+                eq, ne = (x == y), (x != y)
+            except Exception as ex:
+                acc.exception(ex, {"field_objects": [type(x).__name__, type(y).__name__]}, "comparison of fields")
+                continue
+            if eq is not same or ne is not (not same):
+                acc.violation(
+                    {"oracle": "different_classes_compare_unequal" if not same else "equal_content_compares_equal", "classes": [type(x).__name__, type(y).__name__], "operator": "==" if eq is not same else "!="},
+                    {"case": {"field_objects": [type(x).__name__, type(y).__name__]}, "observed": [eq, ne], "expected": [same, not same]},
+                )
+    for target in ("t", "other", "fresh"):
+        e = Entry("article", "k", [Field("t", "T", 1), Field("other", "O", 2)])
+        d = {"t": "T", "other": "O"}
+        f = e.get("t")
+        acc.trace()
+        acc.case(nontrivial_key=("field-as-value", target))
+        try:
+            e[target] = f
+            d[target] = f
+            got = e[target]
+        except Exception as ex:
+            acc.exception(ex, {"field_as_value": target}, "assignment of a Field object as a value")
+            continue
+        if got is not f or [k for k, _ in e.items()][2:] != list(d) or not order_ok(e, d):
+            acc.violation(
+                {"oracle": "assignment_stores_the_new_object", "how": "a Field object as the value"},
+                {"case": {"field_as_value": target}, "observed": repr(got)[:100], "expected": "the very Field object assigned, as d[k] = f gives"},
+            )
 
 
 def odd_keys(acc):
@@ -650,6 +702,8 @@ def replay(case, acc):
         odd_keys(acc)
     elif "equal_values" in case:
         equal_values(acc)
+    elif "field_objects" in case or "field_as_value" in case:
+        field_objects(acc)
     elif "wide_entry" in case:
         wide_entries(acc, "quick" if case["wide_entry"] <= 13 else "thorough")
     elif "doc" in case:
